@@ -33,6 +33,7 @@ func c01(c *Ctx) {
 	// the rolling window whose sums the decision is computed from (same structure rules as C16.R5)
 	c16windowAs(c, "C01.R7")
 	c01registry(c)
+	c01guarded(c)
 }
 
 func paramByType(f *ssa.Function, ts string) *ssa.Parameter { return paramOfType(f, ts) }
@@ -1201,4 +1202,148 @@ func c01registry(c *Ctx) {
 	}
 	o := c.R.Check(len(bad) == 0 && sites >= 10, rule, "breaker users with a context", "every in-tree call of a breaker Do* entry point from code that has a context.Context uses the ...Ctx variant (a call whose context is already done is neither run nor recorded — otherwise expired-context calls count as failures of a healthy callee and open the breaker)", "-", strings.Join(bad, "; "), bad, 0)
 	o.Sites = sites
+}
+
+// c01guarded (C01.R9): a method that puts its work under a breaker held in a field of its receiver
+// does *all* of the fallible work through the receiver's collaborators inside the guarded closure.
+// A collaborator call made before the breaker (fetching the connection first, seed r3-C01-2) runs
+// for rejected calls too and its failures are never recorded: with the callee down the breaker
+// never opens for that method.
+func c01guarded(c *Ctx) {
+	rule := "C01.R9"
+	brkNamed := func(t types.Type) bool {
+		n, ok := t.(*types.Named)
+		return ok && n.Obj().Name() == "Breaker" && n.Obj().Pkg() != nil && n.Obj().Pkg().Path() == mod+brkPkg
+	}
+	errT := types.Universe.Lookup("error").Type()
+	returnsErr := func(sig *types.Signature) bool {
+		for i := 0; i < sig.Results().Len(); i++ {
+			if types.Identical(sig.Results().At(i).Type(), errT) {
+				return true
+			}
+		}
+		return false
+	}
+	recvNamed := func(f *ssa.Function) *types.Named {
+		for f.Parent() != nil {
+			f = f.Parent()
+		}
+		if f.Signature.Recv() == nil {
+			return nil
+		}
+		t := f.Signature.Recv().Type()
+		if p, ok := t.(*types.Pointer); ok {
+			t = p.Elem()
+		}
+		n, _ := t.(*types.Named)
+		return n
+	}
+	// field load of a value of (pointer to) named type n; returns the field
+	fieldOf := func(v ssa.Value, n *types.Named) *types.Var {
+		u, ok := v.(*ssa.UnOp)
+		if !ok {
+			if f, ok := v.(*ssa.Field); ok {
+				if types.Identical(f.X.Type(), n) {
+					return n.Underlying().(*types.Struct).Field(f.Field)
+				}
+			}
+			return nil
+		}
+		fa, ok := u.X.(*ssa.FieldAddr)
+		if !ok {
+			return nil
+		}
+		pt, ok := fa.X.Type().Underlying().(*types.Pointer)
+		if !ok || !types.Identical(pt.Elem(), n) {
+			return nil
+		}
+		return n.Underlying().(*types.Struct).Field(fa.Field)
+	}
+	methods, sites := 0, 0
+	var bad []string
+	for _, pk := range c.P.Pkgs {
+		rel := strings.TrimPrefix(pk.PkgPath, mod)
+		if rel == brkPkg {
+			continue
+		}
+		for _, m := range c.P.AllFuncs(rel) {
+			if m.Parent() != nil || m.Signature.Recv() == nil || m.Blocks == nil {
+				continue
+			}
+			n := recvNamed(m)
+			if n == nil {
+				continue
+			}
+			if _, ok := n.Underlying().(*types.Struct); !ok {
+				continue
+			}
+			// closures handed to the breaker held in a receiver field
+			guarded := map[*ssa.Function]bool{}
+			uses := false
+			walkWithClosures(m, func(g *ssa.Function) {
+				for _, b := range g.Blocks {
+					for _, ins := range b.Instrs {
+						call, ok := ins.(ssa.CallInstruction)
+						if !ok {
+							continue
+						}
+						cc := call.Common()
+						if !cc.IsInvoke() || !brkNamed(cc.Value.Type()) || !strings.HasPrefix(cc.Method.Name(), "Do") {
+							continue
+						}
+						if fieldOf(cc.Value, n) == nil {
+							continue
+						}
+						uses = true
+						for _, a := range cc.Args {
+							if mc, ok := a.(*ssa.MakeClosure); ok {
+								walkWithClosures(mc.Fn.(*ssa.Function), func(h *ssa.Function) { guarded[h] = true })
+							}
+						}
+					}
+				}
+			})
+			if !uses {
+				continue
+			}
+			methods++
+			walkWithClosures(m, func(g *ssa.Function) {
+				for _, b := range g.Blocks {
+					for _, ins := range b.Instrs {
+						call, ok := ins.(ssa.CallInstruction)
+						if !ok {
+							continue
+						}
+						cc := call.Common()
+						var fld *types.Var
+						var sig *types.Signature
+						if cc.IsInvoke() {
+							if brkNamed(cc.Value.Type()) {
+								continue
+							}
+							fld = fieldOf(cc.Value, n)
+							sig, _ = cc.Method.Type().(*types.Signature)
+						} else if cc.StaticCallee() == nil {
+							if _, isB := cc.Value.(*ssa.Builtin); isB {
+								continue
+							}
+							fld = fieldOf(cc.Value, n)
+							sig, _ = cc.Value.Type().Underlying().(*types.Signature)
+						}
+						if fld == nil || sig == nil || !returnsErr(sig) {
+							continue
+						}
+						sites++
+						if !guarded[g] {
+							bad = append(bad, fmt.Sprintf("%s: %s.%s calls its collaborator %s outside the closure it hands to the breaker: the call runs for rejected requests too and its failure is never recorded", c.P.Pos(ins.Pos()), rel, m.RelString(m.Pkg.Pkg), fld.Name()))
+						}
+					}
+				}
+			})
+		}
+	}
+	sortStrings(bad)
+	o := c.R.Check(len(bad) == 0 && methods >= 20 && sites >= 4, rule, "breaker-guarded methods#collaborators", "in every method that guards its work with a breaker held in a receiver field, every error-returning call through the receiver's collaborators (function-typed or interface-typed fields) is made inside the guarded closure", "-", strings.Join(bad, "; "), bad, sites)
+	o.Sites = sites
+	c.R.Extra["C01.R9_methods"] = methods
 }
